@@ -145,6 +145,10 @@ func errClass(err error) string {
 		return "prefix"
 	case err.Error() == "Invalid value type":
 		return "type"
+	case err.Error() == "Invalid length":
+		return "len"
+	case err.Error() == "Invalid code":
+		return "code"
 	}
 	return "other:" + hex.EncodeToString([]byte(err.Error()))
 }
